@@ -76,6 +76,12 @@ def ukfp_case(g, tier):
     Ps = [U.scale_cov(U.rnd_psd(g, n, pstyle), d) for _ in range(k)]
     means = [[v * d[i] for i, v in enumerate(g.vec(n))] for _ in range(k)]
     u = [v * d[i] for i, v in enumerate(g.vec(n))] if exo else [0.0] * n
+    # belief far from the origin relative to its spread (|m| / sigma ~ 1e5 .. 3e7: a target in map coordinates with
+    # decimetre uncertainty): E[yy'] - mm' style moment formulas lose eps |m|^2
+    far = r.random() < 0.2
+    if far:
+        sh = 10 ** r.uniform(5, 7.5)
+        means = [[v + d[i] * sh * r.choice([-1.0, 1.0, 0.5]) for i, v in enumerate(mm_)] for mm_ in means]
     dup = near_duplicates(g, means, Ps)
     outw = [r.uniform(0.01, 1.0) for _ in range(k)]
     if variant == 0:
@@ -88,7 +94,7 @@ def ukfp_case(g, tier):
         Gf, Qf = U.fmat(G), U.fmat(Q)
         Qeff = round_mat(vlib.mmul(vlib.mmul(Gf, Qf), vlib.mT(Gf)))
     meta = {"op": "ukfp", "variant": variant, "n": n, "nz": nz, "k": k, "alpha": alpha, "beta": beta, "kappa": kappa, "skip": skip, "exo": exo,
-            "F": F, "G": G, "Q": Q, "Qeff": Qeff, "u": u, "means": means, "Ps": Ps, "outw": outw, "pstyle": pstyle, "scale": skind, "dup": dup}
+            "F": F, "G": G, "Q": Q, "Qeff": Qeff, "u": u, "means": means, "Ps": Ps, "outw": outw, "pstyle": pstyle, "scale": skind + ("+farmean" if far else ""), "dup": dup}
     return meta
 
 
@@ -150,6 +156,12 @@ def ukfc_case(g, tier):
         if hstyle == "zerorow":
             H[r.randrange(m)] = [0.0] * n
     y = [v * sc for v in g.vec(m)]
+    far = r.random() < 0.2
+    if far:
+        sh = 10 ** r.uniform(5, 7.5)
+        off = [sc * sh * r.choice([-1.0, 1.0, 0.5]) for _ in range(n)]
+        means = [[v + off[i] for i, v in enumerate(mm_)] for mm_ in means]
+        y = [sum(H[a][j] * means[0][j] for j in range(n)) + y[a] for a in range(m)]     # a measurement near the predicted one
     outw = [r.uniform(0.01, 1.0) for _ in range(k)]
     cond = 10 ** r.uniform(0, 3)
     if variant == 0:
@@ -181,7 +193,7 @@ def ukfc_case(g, tier):
             Reff = round_mat(vlib.mmul(vlib.mmul(Df, Rf), vlib.mT(Df)))
     alpha, beta, kappa = U.rnd_params(g, n + nz)
     meta = {"op": "ukfc", "variant": variant, "n": n, "nz": nz, "m": m, "k": k, "alpha": alpha, "beta": beta, "kappa": kappa, "fail": fail, "online": online,
-            "H": H, "D": D, "R": R, "Reff": Reff, "y": y, "means": means, "Ps": Ps, "outw": outw, "pstyle": pstyle, "hstyle": hstyle, "scale": skind, "dup": dup, "dchan": dchan}
+            "H": H, "D": D, "R": R, "Reff": Reff, "y": y, "means": means, "Ps": Ps, "outw": outw, "pstyle": pstyle, "hstyle": hstyle, "scale": skind + ("+farmean" if far else ""), "dup": dup, "dchan": dchan}
     return meta
 
 
@@ -256,7 +268,7 @@ def derive_step(meta, g):
             if meta["exo"] and r.random() < 0.5:
                 st["u"] = [v * d[i] for i, v in enumerate(g.vec(n))]
     else:
-        sc = 2.0 ** SCALE_EXP.get(meta["scale"], 0)
+        sc = 2.0 ** SCALE_EXP.get(meta["scale"].split("+")[0], 0)
         st["Ps"] = [U.scale_cov(U.rnd_psd(g, n, r.choice(["full", "full", "dyadic", "singular", "diag"])), [sc] * n) for _ in range(k)]
         st["means"] = [[v * sc for v in g.vec(n)] for _ in range(k)]
         dchan = meta.get("dchan") or [1.0] * meta["m"]
@@ -744,6 +756,141 @@ def compare_ukfc(meta, o, kfd, mud, stats):
 
 # ------------------------------------------------------------------------------------------------ run
 
+def gen_ukf_history(g, idx):
+    """a linear-Gaussian history for two whole filters (UKF pair, KF pair), well conditioned by construction"""
+    r = g.r
+    variant = idx % 2
+    n, m, k = r.randint(1, 4), r.randint(1, 3), r.choice([1, 1, 2])
+    nz, nzm = (r.randint(1, 2), m) if variant == 1 else (0, 0)
+    steps = r.randint(2, 6)
+    alpha = r.choice([1.0, 0.5, 1.3, 1.0])
+    beta = r.choice([2.0, 0.0])
+    kappa = r.choice([0.0, 0.5, 1.0])
+    exo = r.random() < 0.5
+    sc = 10 ** r.uniform(-3, 3) if r.random() < 0.3 else 1.0
+    far = (10 ** r.uniform(4, 6.5)) if r.random() < 0.25 else 0.0
+    off = [far * r.choice([-1.0, 1.0]) for _ in range(n)]          # all components far from the origin, near each other
+    means = [[sc * (v + off[i]) for i, v in enumerate(g.vec(n))] for _ in range(k)]
+    Ps = [g.spd(n, cond=10 ** r.uniform(0, 2), scale=sc * sc * 10 ** r.uniform(-1, 1)) for _ in range(k)]
+    t = ["ukfh", str(variant), str(n), str(nz), str(m), str(nzm), str(k), hexd(alpha), hexd(beta), hexd(kappa), "1" if exo else "0"]
+    t += [hexd(means[c][i]) for c in range(k) for i in range(n)]
+    t += [hexd(Ps[c][i][j]) for c in range(k) for j in range(n) for i in range(n)]
+    t += [str(steps)]
+    flags = []
+    F = g.mat(n, n, -1.0, 1.0)
+    track = list(means[0])
+    for s_ in range(steps):
+        skipP, skipS, skipC = r.random() < 0.1, r.random() < 0.1, r.random() < 0.12
+        hasmeas = r.random() < 0.8
+        flags.append((skipP, skipS, skipC, hasmeas))
+        if r.random() < 0.5:
+            F = g.mat(n, n, -1.0, 1.0)
+        t += ["1" if x else "0" for x in (skipP, skipS, skipC, hasmeas)] + U.cm_tokens(F)
+        if variant == 1:
+            t += U.cm_tokens(g.mat(n, nz, -1.0, 1.0)) + U.cm_tokens(g.spd(nz, cond=10 ** r.uniform(0, 2), scale=sc * sc * 10 ** r.uniform(-1, 0)))
+        else:
+            t += U.cm_tokens(g.spd(n, cond=10 ** r.uniform(0, 2), scale=sc * sc * 10 ** r.uniform(-2, 0)))
+        uvec = [(sc * v if exo else 0.0) for v in g.vec(n)]
+        t += [hexd(v) for v in uvec]
+        if not (skipP or skipS):
+            track = [sum(F[i][j] * track[j] for j in range(n)) + uvec[i] for i in range(n)]      # where the belief roughly is
+        H = g.mat(m, n)
+        t += U.cm_tokens(H)
+        if variant == 1:
+            D = [[(1.0 if i == j else 0.0) + 0.25 * g.dyadic(-1, 1, 3) for j in range(nzm)] for i in range(m)]
+            t += U.cm_tokens(D) + U.cm_tokens(g.spd(nzm, cond=10 ** r.uniform(0, 2), scale=sc * sc * 10 ** r.uniform(-1, 1)))
+        else:
+            t += U.cm_tokens(g.spd(m, cond=10 ** r.uniform(0, 2), scale=sc * sc * 10 ** r.uniform(-1, 1)))
+        # a measurement in the vicinity of what the belief predicts (keeps the likelihood away from underflow)
+        t += [hexd(sum(H[a][j] * track[j] for j in range(n)) + sc * v) for a, v in enumerate(g.vec(m))]
+    return " ".join(t), {"variant": variant, "n": n, "m": m, "k": k, "steps": steps, "flags": flags, "far": far != 0.0}
+
+
+def history_stage(ctx, binary, lines=None):
+    """Theorem ukf_history_eq_kf on the implementation: two whole filters (UKFPrediction + UKFCorrection, additive or
+    generic constructors; KFPrediction + KFCorrection) composed as GaussianFilter::filtering_step composes them, each on
+    its own trajectory through the same generated history; after every step the predicted and the corrected beliefs and
+    the likelihoods must agree.  The histories are well conditioned by construction (cond <= 1e2 per matrix, alpha >= 0.5,
+    <= 6 steps): agreement is required, per step taken, to 1e-7 relative to the spread (d_i d_j, d = sqrt diag P) plus
+    4096 eps |m_i| d_j for beliefs far from the origin (the offsets of the sigma points are differences of numbers of
+    size |m|) - see max_dev_over_tol in the evidence for the margin on the clean tree; a wrong or stale step moves the
+    result by O(1) of the spread."""
+    g = ctx.gen("ukfh")
+    cases = [(ln, None) for ln in lines] if lines else [gen_ukf_history(g, i) for i in range(ctx.n(24, 150))]
+    hout, logs = vlib.run_harness(binary, [c[0] for c in cases])
+    bad, stats = [], {"histories": len(cases), "steps": 0, "augmented": 0, "far_mean": 0, "skipped_or_unmeasured_steps": 0, "likelihoods_compared": 0, "max_dev_over_tol": 0.0, "sanitizer_crashes": len(logs)}
+    REL, FAR = 1e-7, 4096 * EPS
+    for (line, meta), h in zip(cases, hout):
+        tk = line.split()
+        n, k, steps = int(tk[2]), int(tk[6]), None
+        if meta:
+            stats["augmented"] += meta["variant"]
+            stats["far_mean"] += 1 if meta["far"] else 0
+        if not h.startswith("ok"):
+            bad.append(("history-failed", "filter history: the implementation failed on a valid history: %s" % h[:100], line, h))
+            continue
+        try:
+            t = h.split()
+            p = 1
+            si = 0
+            movedmax = 0.0
+            while p < len(t):
+                if t[p] != "step":
+                    raise ValueError("format")
+                p += 1
+                si += 1
+                stats["steps"] += 1
+                got = {}
+                for name in ("predU", "corrU"):
+                    mm_, cc_, _, p = read_gm(t, p, n, k, unhex)
+                    got[name] = (mm_, cc_)
+                likU, p = read_lik(t, p)
+                for name in ("predK", "corrK"):
+                    mm_, cc_, _, p = read_gm(t, p, n, k, unhex)
+                    got[name] = (mm_, cc_)
+                likK, p = read_lik(t, p)
+                if any(v[0] is None for v in got.values()):
+                    bad.append(("history-shape", "filter history, step %d: a belief of unexpected shape" % si, line, h)); break
+                worst, where = 0.0, ""
+                for a, b in (("predU", "predK"), ("corrU", "corrK")):
+                    for c in range(k):
+                        mu, Pu = got[a][0][c], got[a][1][c]
+                        mk, Pk = got[b][0][c], got[b][1][c]
+                        vals = mu + [x for row in Pu for x in row]
+                        if any(x != x or abs(x) == float("inf") for x in vals):
+                            worst, where = float("inf"), "%s component %d not finite" % (a, c); break
+                        d = [max(Pk[i][i], 0.0) ** 0.5 for i in range(n)]
+                        for i in range(n):
+                            movedmax = max([movedmax] + [abs(got["corrK"][0][c2][i2] - got["predK"][0][c2][i2]) for c2 in range(k) for i2 in range(n)])
+                            moved = movedmax
+                            e = abs(mu[i] - mk[i]) / ((si + 1) * (REL * (d[i] + moved) + FAR * abs(mk[i])) + 1e-300)
+                            if e > worst:
+                                worst, where = e, "%s mean[%d] of component %d: UKF %.17g, KF %.17g" % (a[:4], i, c, mu[i], mk[i])
+                            for j in range(n):
+                                e = abs(Pu[i][j] - Pk[i][j]) / ((si + 1) * (REL * d[i] * d[j] + FAR * (abs(mk[i]) * d[j] + abs(mk[j]) * d[i])) + 1e-300)
+                                if e > worst:
+                                    worst, where = e, "%s covariance[%d][%d] of component %d: UKF %.17g, KF %.17g" % (a[:4], i, j, c, Pu[i][j], Pk[i][j])
+                stats["max_dev_over_tol"] = max(stats["max_dev_over_tol"], worst if worst != float("inf") else 1e300)
+                if worst > 1.0:
+                    bad.append(("history-beliefs-differ", "filter history, step %d: %s" % (si, where), line, h)); break
+                if (likU is None) != (likK is None):
+                    bad.append(("history-likelihood-availability", "filter history, step %d: likelihood available from one filter only" % si, line, h)); break
+                if likU is not None:
+                    stats["likelihoods_compared"] += 1
+                    for c, (lu, lk) in enumerate(zip(likU, likK)):
+                        lu, lk = float(lu), float(lk)
+                        if lk > 1e-290 and lu > 0:
+                            if abs(math.log(lu) - math.log(lk)) > 1e-5 * (si + 1) * (1 + abs(math.log(lk))):
+                                bad.append(("history-likelihood-differs", "filter history, step %d, component %d: likelihood UKF %.17g, KF %.17g" % (si, c, lu, lk), line, h)); break
+                        elif lk > 1e-290 and not lu > 0:
+                            bad.append(("history-likelihood-differs", "filter history, step %d, component %d: likelihood UKF %r, KF %.17g" % (si, c, lu, lk), line, h)); break
+                else:
+                    stats["skipped_or_unmeasured_steps"] += 1
+        except Exception as ex:
+            bad.append(("history-unreadable", "filter history: output cannot be evaluated (%s: %s): %s" % (type(ex).__name__, ex, h[:100]), line, h))
+    return bad, stats
+
+
 def run(ctx):
     ctx.proof_stage()
     binary = vlib.build_harness("h_ut")
@@ -778,6 +925,14 @@ def run(ctx):
             objects.insert(0, U.unsnap(cr["meta"])["steps"])
             ncorpus += 1
     hist["corpus-objects"] = ncorpus
+    hist_lines = None
+    if ctx.replay and str(json.load(open(ctx.replay))["replay"].get("input_line", "")).startswith("ukfh") and "meta" not in json.load(open(ctx.replay))["replay"]:
+        hist_lines = [json.load(open(ctx.replay))["replay"]["input_line"]]
+        hb, hstats = history_stage(ctx, vlib.build_harness("h_ut"), hist_lines)
+        for key2, what, line, h in hb[:5]:
+            ctx.violation(key2, "UKF vs KF: " + what, {"harness": "h_ut", "input_line": line, "observed": h[:3000]})
+        ctx.coverage.update({"evaluations": hstats["steps"], "distinct_nontrivial": hstats["steps"], "rule": "replay of one filter history", "samples": hist_lines, "traces_validated_against_impl": hstats["steps"]})
+        return
     if ctx.replay:
         rm = U.unsnap(json.load(open(ctx.replay))["replay"]["meta"])
         objects = [rm["steps"] if isinstance(rm, dict) and "steps" in rm else [rm]]
@@ -884,6 +1039,17 @@ def run(ctx):
         key2, what, ci, h = corr_bad[0]
         ctx.violation("correspondence:" + key2, "model and implementation disagree (%d cases), no property predicate failed: %s" % (len(corr_bad), what),
                       rdata(ci, h, {"correspondence": "BFL.ukfPredict*/ukfCorrect* vs UKFPrediction/UKFCorrection"}), no_input=True)
+    hstats = {}
+    if not ctx.replay:
+        hb, hstats = history_stage(ctx, binary)
+        seenh = set()
+        for key2, what, line, h in hb:
+            if key2 in seenh:
+                continue
+            seenh.add(key2)
+            prop_bad.append((key2, what, -1, h))
+            ctx.violation(key2, "UKF vs KF: " + what, {"harness": "h_ut", "input_line": line, "observed": h[:3000],
+                                                        "how": "python3 check.py C04 --replay <this file> re-runs exactly this history against the current tree"})
     for k_, v_ in stats.pop("_notes", {}).items():
         notes[k_] = notes.get(k_, 0) + v_
     nontrivial = set((hl[ci], meta["step"]) for ci, meta in enumerate(metas) if meta["n"] + meta["nz"] > 1 or meta["k"] > 1)
@@ -909,7 +1075,7 @@ def run(ctx):
             "UKFCorrection::getLikelihood:no innovations (false)": notes.get("getLikelihood_without_innovations_returns_false", 0),
             "UKFCorrection::getLikelihood:density per component": sum(v for k_, v in hist.items() if k_.startswith("correct:") and "+fail" not in k_),
         },
-        "numeric_max_error_over_tolerance": stats, "notes_not_alarmed": notes,
+        "numeric_max_error_over_tolerance": stats, "notes_not_alarmed": notes, "filter_histories": hstats,
         "traces_validated_against_impl": len(metas),
         "model_vs_impl_disagreements": len(corr_bad), "property_failures_on_impl": len(prop_bad),
         "sanitizer_crashes": len(logs),
